@@ -465,7 +465,7 @@ func replayCmd(repo, path string) int {
 func aloneDigests(b *Build, bt Batch, k int, opHashes bool) (*doneEv, *doneEv) {
 	full := bt
 	full.Runs = k + 1
-	fa, aa := batchArgs(full), append(batchArgs(bt), "-only", fmt.Sprint(k))
+	fa, aa := batchArgs(full), append(batchArgs(bt), "-only", fmt.Sprint(k), "-backwards")
 	if opHashes {
 		fa, aa = append(fa, "-ophashes"), append(aa, "-ophashes")
 	}
@@ -488,7 +488,7 @@ func checkAlone(b *Build, results []*BatchResult, verifSeed uint64, root string,
 			continue
 		}
 		ev.AloneChecked++
-		if r.AloneHash == "" || r.AloneHash == r.Done[len(r.Done)-1].ResHash {
+		if r.AloneHash == "" || r.AloneRun >= len(r.Done) || r.AloneHash == r.Done[r.AloneRun].ResHash {
 			continue
 		}
 		devN++
@@ -500,7 +500,7 @@ func checkAlone(b *Build, results []*BatchResult, verifSeed uint64, root string,
 		return ""
 	}
 	bt := dev.Batch
-	k := bt.Runs - 1
+	k := dev.AloneRun
 	// confirm with fresh processes, twice (a difference that does not repeat is reported as not reproducible)
 	f1, a1 := aloneDigests(b, bt, k, true)
 	f2, a2 := aloneDigests(b, bt, k, false)
